@@ -115,6 +115,21 @@ claim("C06", "DESIGN.md section 4 C06 + section 11",
       "well-formed generators); the pinned binding is refuted inside Coq. Multi-for comprehensions and error messages are compared, not claimed; constructor parameters assumed positional-or-keyword.",
       "Hypothesis of sugar_sem: the operator list contains Select and Where. Generator expressions are forced eagerly. CPython 3.12.1's PEP 709 inlining corner cases are excluded from the semantic comparison and counted.")
 
+claim("C11", "DESIGN.md section 4 C11/C12/C16 + section 11",
+      "proof: streams_immutable / streams_immutable_full - every observation (dump, item type, and all non-field node attributes) of every live stream is invariant under every later operation, "
+      "for all finite histories of NewDataset/Derive/MetaData/QMetaData/Terminal/ValueStart/ValueFinish over a heap of AST node objects (frame invariant: a step only allocates; remove_empty_h and "
+      "copy.copy never write an existing address - remove_preserves_input); model tied to the code by per-step comparison of every live stream on exhaustive short and random long histories.",
+      "Lambda processing (parse, sugar, type following) is an input of the stream model; copy.copy is modelled as a shallow copy including __dict__; asyncio/make_sync are not modelled.")
+claim("C12", "DESIGN.md section 4 C11/C12/C16 + section 11",
+      "proof: no_exec_while_building; value_routes_once (exactly one log entry: the override if given, else the executor found along args[0]; AST = remove_empty of the stream's own dump; the title); "
+      "value_returns_own / finish_only_own / result_has_finish for every interleaving of Finish events (value_async split at its single await); root_recoverable for every stream built by stream operations; "
+      "bad_roots_rejected for all trees. Partial by nature: atomicity between awaits is assumed, the event loop and make_sync's thread hand-off cannot be exhibited by a Gallina model, executors are scripted.",
+      "literal_eval modelled on constants, tuples, lists, dicts and signed numbers.")
+claim("C16", "DESIGN.md section 4 C11/C12/C16 + section 11",
+      "proof: qmd_last_writer - lookup_query_metadata (walk modelled faithfully) equals a dictionary replay along the stream's own derivation path, for all histories without hand-embedded stream ASTs; "
+      "qmd_invisible - dumps, item types, outcomes and the whole executor log equal those of the QMetaData-erased history, for all histories; lookups_immutable.",
+      "Metadata values compared by structural equality; a lambda embedding another stream's AST object also exposes that stream's metadata (Example; model and code agree; such a join has two roots and is rejected).")
+
 ALL = ["C%02d" % i for i in range(1, 21)]
 PENDING = "not yet claimed: model, correspondence and proofs for this property are still being integrated (DESIGN.md section 10 staging)"
 
